@@ -1,5 +1,5 @@
 From Coq Require Import NArith Bool List String.
-From PK Require Import Base.Outcome Gen.Types Impl Spec.Event Ext.Event ExtI.Ev Check.Ev Enc.
+From PK Require Import Base.Outcome Gen.Types Impl Spec.Mods Ext.Event ExtI.Ev Check.EvImpl Enc.
 Import ListNotations.
 Local Open Scope N_scope.
 Definition enc_res (r : ev_res) : list N :=
